@@ -473,4 +473,36 @@ theorem sinv_ustep (c : Cfg) (hb : c.bug = .none) {x x' : Seq} {l : ULabel} (h :
     | d2 e => exact sinv_d2 c hb h e hpc st
     | d3 e => simp [pcOK, hpc] at hk
 
+/-- what one updater step may change, as seen by readers -/
+structure Mono (x x' : Seq) : Prop where
+  tick : x'.tick = x.tick + 1
+  pub_mono : ∀ a, x.pub a → x'.pub a
+  live_new : ∀ a, x'.st a = .live → x.st a = .live ∨ (¬ x.pub a ∧ x'.pubS a = x'.tick)
+  dead_old : ∀ a, x.st a = .dead → x'.st a = .dead ∧ x'.deadS a = x.deadS a
+  dead_new : ∀ a, x'.st a = .dead → x.st a = .dead ∨ (x.st a = .live ∧ x'.deadS a = x'.tick)
+  pubS_old : ∀ a, x.pub a → x'.pubS a = x.pubS a
+  bef_old : ∀ a b, x.pub a → x.pub b → x'.bef a b = x.bef a b
+  dead_next : ∀ a, x.st a = .dead → x'.next a = x.next a
+  hist_grow : x'.hist = x.hist ∨ ∃ n, x'.hist = n :: x.hist ∧ ¬ x.pub n
+
+theorem mono_ustep (c : Cfg) (hb : c.bug = .none) {x x' : Seq} {l : ULabel} (h : SInv c x)
+    (st : ustep c x l = some x') : Mono x x' := by
+  have hk := h.pc_ok
+  have hpriv := h.priv_iff
+  have hhl := h.head_live
+  have hprev := h.prev_ok
+  have hfwd := h.fwd
+  have hirr := h.irr
+  simp only [Seq.pub] at hfwd
+  cases l with
+  | add n => simp only [ustep] at st; split at st <;> simp at st; subst st; constructor <;> simp [upd, Seq.pub] <;> grind
+  | addTail n => simp only [ustep] at st; split at st <;> simp at st; subst st; constructor <;> simp [upd, Seq.pub] <;> grind
+  | del n => simp only [ustep] at st; split at st <;> simp at st; subst st; constructor <;> simp [upd, Seq.pub] <;> grind
+  | repl o n => simp only [ustep] at st; split at st <;> simp at st; subst st; constructor <;> simp [upd, Seq.pub] <;> grind
+  | st =>
+    cases hpc : x.pc <;> simp [ustep, hpc, hb] at st <;> simp [pcOK, newOf, excOf, hpc] at hk hpriv hprev <;>
+      (try split at st) <;> (try simp at st) <;> subst st <;>
+      constructor <;> simp [upd, Seq.pub, pubHead, pubTail, pubRepl] <;> grind
+
+
 end UrcuVerif.RcuList
